@@ -346,7 +346,7 @@ void Exec::step(const Step &s) {
     // still exercised, not compared: read-only requests that walk the activation tables (a half-done reload must
     // not crash them), and the bus steps that process them
     bool readonly = t == "query" && (s.S(0) == "ListActivatableNames" || (s.S(0) == "StartServiceByName" && s.S(1) == "com.example.nosuch"));
-    if (!readonly && t != "bus" && t != "check") return;
+    if (!readonly && t != "bus") return;
   }
   if (t == "connect") { connect_step(s); return; }
   if (t == "uniq") { w.set_unique_counter((int)s.N(0, 1), (int)s.N(1, 0)); return; }   // unique names in a prefix relation (:1.1, :1.10) with few connections
@@ -458,8 +458,7 @@ void Exec::step(const Step &s) {
   }
   if (t == "oomcheck") { resolve_oom(); return; }
   if (t == "oomretry") {
-    skip_until_retry = false;
-    md.cfg_unspecified = false;
+    forget_unspecified_window();
     if (oom_outcome == "nomemory" && oom_op_valid) { counters["oom_retried"]++; step(oom_op); }
     return;
   }
@@ -1206,6 +1205,7 @@ core::RunResult Exec::run() {
       if (!oom_op_locked && s.t != "oombus" && s.t != "oomcheck" && s.t != "oomretry" && s.t != "check" && s.t != "bus" && s.t != "drain" && s.t != "deliver") { oom_op = s; oom_op_valid = true; answered_before = answered; }
       step(s);
     }
+    forget_unspecified_window();
     check_point(true);
     finish();
     w.stop_bus(true);
@@ -1434,6 +1434,24 @@ void Exec::install_policy_hooks() {
 }
 
 void Exec::finish() {}
+
+// Listed finding C14-reload-not-atomic: nothing that happened while the configuration in force was unspecified is
+// compared (not the probes' replies, not the copies an eavesdropper may or may not have been entitled to):
+// settle and forget it.
+void Exec::forget_unspecified_window() {
+  if (skip_until_retry) {
+    w.quiesce();
+    for (size_t i = 0; i < w.clients.size(); i++) {
+      if (!w.clients[i].closed && w.clients[i].connected) w.drain((int)i);
+      w.clients[i].got_checked = w.clients[i].got.size();
+      if (i < md.exp.size()) md.exp[i].clear();
+      if (i < md.floating.size()) md.floating[i].clear();
+    }
+    pending_choices.clear();
+  }
+  skip_until_retry = false;
+  md.cfg_unspecified = false;
+}
 
 core::RunResult execute(const core::Plan &plan, bool log) {
   if (plan.C("oom.enumerate", 0) == 0) {
